@@ -273,7 +273,9 @@ fn cmp_sites(m: &Model, ctx: &mut Ctx, _ev: &Evaluator) {
                     _ => Some(Err("join_annotations without a list".into())),
                 },
                 ".and_then" | ".map" | ".map_err" if matches!(a.first(), Some(Val::Ctor(n, _, _)) if n == "$SINK") => Some(Ok(a[0].clone())),
-                ".to_rust_enum_identifier" | ".to_rust_snake_case" | ".to_rust_title_case" => Some(Ok(a.get(1).cloned().unwrap_or(Val::Unit))),
+                // the manglers turn hyphens into underscores (the internal group prefix contains underscores, which no ASN.1
+                // identifier can: a user-written `ext-group-x` is an ordinary component)
+                ".to_rust_enum_identifier" | ".to_rust_snake_case" | ".to_rust_title_case" => Some(Ok(match a.get(1) { Some(Val::Str(n)) => Val::Str(n.replace('-', "_")), Some(o) => o.clone(), None => Val::Unit })),
                 "Self::needs_unnesting" | "Rasn::needs_unnesting" => Some(Ok(Val::Bool(false))),
                 _ => None,
             }
@@ -281,11 +283,11 @@ fn cmp_sites(m: &Model, ctx: &mut Ctx, _ev: &Evaluator) {
         let ev = Evaluator { consts: &consts, call_hook: &hook, inline: None };
         for ext in [None, Some(0usize), Some(1), Some(2), Some(3)] {
             for i in 0..4usize {
-                for group in if has_groups { vec![false, true] } else { vec![false] } {
-                    let key = format!("{}: i={} first_ext={:?} group={}", fname, i, ext, group);
+                for (group, spelled) in if has_groups { vec![(false, "abc"), (true, "ext_group_abc"), (false, "ext-group-abc")] } else { vec![(false, "abc")] } {
+                    let key = format!("{}: i={} first_ext={:?} name={}", fname, i, ext, spelled);
                     ctx.oblige("C05.cmp", &key, true);
                     let mut n = BTreeMap::new();
-                    n.insert("name".to_string(), Val::Str(if group { "ext_group_abc".into() } else { "abc".into() }));
+                    n.insert("name".to_string(), Val::Str(spelled.into()));
                     n.insert("index".to_string(), Val::int(i as i128));
                     n.insert("ty".to_string(), Val::Opaque("ty".into()));
                     let member = Val::Ctor("member".into(), vec![], n);
